@@ -235,9 +235,11 @@ func (g *Global) modsetOfFunc(f *ssa.Function) map[string]modInfo {
 		return ms
 	}
 	if g.modBusy[f] {
+		g.busyHits++
 		return nil
 	}
 	g.modBusy[f] = true
+	hits0 := g.busyHits
 	out := map[string]modInfo{}
 	for _, b := range f.Blocks {
 		if b == f.Recover {
@@ -257,7 +259,10 @@ func (g *Global) modsetOfFunc(f *ssa.Function) map[string]modInfo {
 		}
 	}
 	delete(g.modBusy, f)
-	g.modsets[f] = out
+	if g.busyHits == hits0 {
+		// only cache results that did not cut a recursion (a cut result is incomplete for the inner functions)
+		g.modsets[f] = out
+	}
 	return out
 }
 
@@ -344,6 +349,14 @@ func (g *Global) scanAll(out map[string]modInfo, f *ssa.Function) {
 		for _, in := range b.Instrs {
 			func() {
 				defer func() { recover() }()
+				switch c := in.(type) {
+				case *ssa.Call:
+					if _, isB := c.Call.Value.(*ssa.Builtin); !isB {
+						return // every function is scanned itself: no need to follow calls
+					}
+				case *ssa.Defer:
+					return
+				}
 				g.instrMods(out, in, nil, nil)
 			}()
 		}
